@@ -2,7 +2,7 @@
 
 G: TLC evaluates spec/mpi/MpiOp.tla through MpiOpGen.tla and prints every case with the result the specification defines:
   * exhaustive small scope: for every (operator, datatype) of the 14 operators x 43 datatypes table, MPI_Reduce_local over ALL pairs of the
-    characteristic values of the type (type minimum/maximum and neighbours, -6, -2, -1, 0, 1, 2, 5, 6; six complex numbers; twelve (value, index)
+    characteristic values of the type (type minimum, maximum, maximum-1, -3, -1, 0, 1, 2, 6; six complex numbers; nine (value, index)
     pairs with ties on the value) whose result fits the type; for the pairs MPI does not allow, the expectation "rejected";
   * seeded sample (-simulate): counts 0..6, random values (extremes mixed with small values), through MPI_Reduce_local, MPI_Allreduce over
     1..6 ranks (expected = the reduction of the per-rank vectors) and, for MPI_REPLACE / MPI_NO_OP, MPI_Accumulate / MPI_Get_accumulate.
@@ -132,45 +132,42 @@ def run(ctx):
     cfg = A.write_cfg(ctx, "o_sim.cfg", "SpecSim", {"MaxNp": 6, "NSlices": 1, "Slice": 0})
     for j in range(nsim):
         jobs.append({"cfg": cfg, "simulate": (depth, ctx.seed * 1000 + j + 1), "tag": "sim %d" % j})
-    cases = A.tlc_cases(ctx, "MpiOpGen.tla", jobs, timeout=900 if quick else 1700)
-    for c in cases:
-        if c["ty"] not in TYPES or c["op"] not in OPS:
-            raise vlib.InfraError("type/operator table of the check and of MpiOpGen differ: %s %s" % (c["ty"], c["op"]))
-    seen, uniq = set(), []
-    for c in cases:
-        h = vlib.canon_hash(c)
-        if h not in seen:
-            seen.add(h)
-            uniq.append(c)
-    cases = uniq
-    pairs = set()
-    elems = 0
-    for c in cases:
-        ctx.count(c, nontrivial=nontrivial(c))
-        pairs.add((c["op"], c["ty"]))
-        elems += c["n"] * (c.get("np", 1))
-    for c in cases[3:4] + cases[len(cases) // 2:len(cases) // 2 + 1] + cases[-3:]:
-        ctx.sample({k: v for k, v in c.items() if k != "id"})
-    bk = {}
-    for c in cases:
-        bk[c["k"] + ":" + c.get("sup", "rma")] = bk.get(c["k"] + ":" + c.get("sup", "rma"), 0) + 1
+    rep = A.Reporter(ctx, tokens_of, np_of, judge)
+    dd = A.Dedup()
+    bk, pairs, tot = {}, set(), {"cases": 0, "views": 0, "elems": 0}
+
+    def process(cases):
+        for c in cases:
+            if c["ty"] not in TYPES or c["op"] not in OPS:
+                raise vlib.InfraError("type/operator table of the check and of MpiOpGen differ: %s %s" % (c["ty"], c["op"]))
+        cases = [c for c in cases if dd.fresh(c)]
+        results = A.run_all(ctx, cases, tokens_of, np_of, chunk=150, timeout=300)
+        with A._lock:
+            for c in cases:
+                ctx.count({k: v for k, v in c.items() if k != "id"}, nontrivial=nontrivial(c))
+                pairs.add((c["op"], c["ty"]))
+                tot["elems"] += c["n"] * (c.get("np", 1))
+                tot["cases"] += 1
+                tot["views"] += np_of(c)
+                key = c["k"] + ":" + c.get("sup", "rma")
+                bk[key] = bk.get(key, 0) + 1
+            for c in cases[2:3] + cases[-1:]:
+                ctx.sample({k: v for k, v in c.items() if k != "id"}, limit=6)
+        for c in cases:
+            for sig, what, detail in judge(c, results[c["id"]]):
+                rep.add(c, sig, what, detail)
+
+    A.pipeline(ctx, "MpiOpGen.tla", jobs, process, par=len(jobs) if quick else 8, timeout=900 if quick else 1700)
     ctx.cov["cases_by_kind_and_support"] = bk
     ctx.cov["operator_type_pairs"] = len(pairs)
-    ctx.cov["elements_reduced"] = elems
+    ctx.cov["elements_reduced"] = tot["elems"]
     ctx.cov["exhaustive"] = True
     ctx.cov["rule"] = ("cases and expected results printed by TLC from MpiOpGen: one MPI_Reduce_local case per (operator, datatype) over all pairs of the "
                        "characteristic values of the type (14 x 43 pairs, exhaustive) + %d seeded -simulate behaviours of %d cases (seed %d) through "
                        "MPI_Reduce_local, MPI_Allreduce (1..6 ranks) and RMA accumulate for REPLACE/NO_OP; non-trivial = count > 0 (and more than one rank "
                        "for the collective / RMA cases); distinct by canonical JSON hash" % (nsim, depth, ctx.seed))
-    results = A.run_all(ctx, cases, tokens_of, np_of, chunk=150, timeout=300)
-    rep = A.Reporter(ctx, tokens_of, np_of, judge)
-    views = 0
-    for c in cases:
-        views += np_of(c)
-        for sig, what, detail in judge(c, results[c["id"]]):
-            rep.add(c, sig, what, detail)
-    ctx.cov["traces_validated_against_impl"] += len(cases)
-    ctx.cov["rank_views_compared"] = views
+    ctx.cov["traces_validated_against_impl"] += tot["cases"]
+    ctx.cov["rank_views_compared"] = tot["views"]
     rep.flush()
     ctx.assumptions += ["TLC integers are 32-bit: operand and result magnitudes stay within signed 31 bits (+ sign); the extremes of the 64-bit types and of "
                         "unsigned 32-bit above 2^31-1 are outside the specification's reach",
